@@ -1,4 +1,5 @@
 import Girc.Proofs.TransCtcp
+import Girc.Proofs.TransEventHelpers
 /-
   Tie (TieCtcp): the function bodies regenerated from the Go source on every run (Girc/Gen/Funcs.lean, written by
   tools/extract/translate.go) equal the hand-written models the property theorems of C14 are about, for ALL inputs.
@@ -19,5 +20,28 @@ theorem tie_DecodeCTCP_nil : Fn.DecodeCTCP none = .ok none := Proofs.Trans.Decod
 -- PRIVMSG x :\x01PING 1\x01
 example : Fn.DecodeCTCP (some { command := PRIVMSG, params := [[0x78], [0x01, 0x50, 0x49, 0x4E, 0x47, 0x20, 0x31, 0x01]] }) =
     .ok (some { source := none, command := [0x50, 0x49, 0x4E, 0x47], text := [0x31], reply := false }) := by rfl
+
+/-! ### event.go: the CTCP views of an event (models in Model/EventHelpers.lean) -/
+
+theorem tie_Event_IsCTCP : ∀ e : Event, Fn.Event_IsCTCP (some e) = .ok (isCTCP e) := Proofs.Trans.Event_IsCTCP_eq
+theorem tie_Event_IsAction : ∀ e : Event, Fn.Event_IsAction (some e) = .ok (isAction e) := Proofs.Trans.Event_IsAction_eq
+theorem tie_Event_IsAction_nil : Fn.Event_IsAction none = .error .nilDeref := Proofs.Trans.Event_IsAction_nil
+-- PRIVMSG #c :\x01ACTION waves\x01
+example : Fn.Event_IsAction (some { command := PRIVMSG, params := [[0x23, 0x63],
+    [0x01, 0x41, 0x43, 0x54, 0x49, 0x4F, 0x4E, 0x20, 0x77, 0x61, 0x76, 0x65, 0x73, 0x01]] }) = .ok true := by rfl
+
+/-- `StripAction`: the model says `none` exactly where the Go code panics (`msg[8:len(msg)-1]` on the 8-byte message
+    `\x01ACTION\x01`, which `IsAction` accepts). -/
+theorem tie_Event_StripAction : ∀ e : Event,
+    Fn.Event_StripAction (some e) = (match stripAction e with
+                                     | some b => .ok b
+                                     | none => .error .sliceBounds) := Proofs.Trans.Event_StripAction_eq
+example : Fn.Event_StripAction (some { command := PRIVMSG, params := [[0x23, 0x63],
+    [0x01, 0x41, 0x43, 0x54, 0x49, 0x4F, 0x4E, 0x20, 0x77, 0x61, 0x76, 0x65, 0x73, 0x01]] }) =
+    .ok [0x77, 0x61, 0x76, 0x65, 0x73] := by rfl
+-- the bare ACTION panics
+example : Fn.Event_StripAction (some { command := PRIVMSG, params := [[0x23, 0x63],
+    [0x01, 0x41, 0x43, 0x54, 0x49, 0x4F, 0x4E, 0x01]] }) = .error .sliceBounds := by rfl
+example : Fn.Event_StripAction (some { command := PRIVMSG, params := [[0x23, 0x63], [0x68, 0x69]] }) = .ok [0x68, 0x69] := by rfl
 
 end Girc.Props.TieCtcp
